@@ -85,9 +85,9 @@ structure Consistent (r : Reg Id) : Prop where
       (p₁.addr = p₂.addr ∨ ∃ d, d ∈ p₁.denoms ∧ d ∈ p₂.denoms) → id₁ = id₂
 
 /-- collision freeness of the id hash on `address | denomination` strings (explicit assumption) -/
-def HashInj (H : Addr → Denom → Id) : Prop := ∀ a d a' d', H a d = H a' d' → a = a' ∧ d = d'
+def HashInj (H : String → Denom → Id) : Prop := ∀ a d a' d', H a d = H a' d' → a = a' ∧ d = d'
 
-variable (H : Addr → Denom → Id)
+variable (H : String → Denom → Id)
 
 /-- The inductive invariant: consistency, every pair is stored under its own id (`GetID`), and every registered
 denomination has bank metadata (this is what makes the `IsDenomRegistered(Name)` guard of RegisterCoin / AddCoin
@@ -120,7 +120,7 @@ theorem inv_empty : Inv H ({} : Reg Id) where
   backed := by intro a id h; simp [Map.find] at h
 
 omit [DecidableEq Id] in
-theorem getID_some {p : Pair} {id : Id} (h : getID H p = some id) : ∃ d ds, p.denoms = d :: ds ∧ id = H p.addr d := by
+theorem getID_some {p : Pair} {id : Id} (h : getID H p = some id) : ∃ d ds, p.denoms = d :: ds ∧ id = H p.addrStr d := by
   unfold getID at h
   split at h
   · simp at h
@@ -128,28 +128,31 @@ theorem getID_some {p : Pair} {id : Id} (h : getID H p = some id) : ∃ d ds, p.
 
 /-! ### the three registry transformations every action is made of -/
 
-/-- a new pair with an unregistered contract and unregistered denominations -/
-theorem inv_insert (hH : HashInj H) {r : Reg Id} (h : Inv H r) (a : Addr) (d0 : Denom) (ds : List Denom) (en : Bool) (ow : Nat)
+/-- a new pair (address string `s` spelling the contract `a`) with an unregistered contract and unregistered
+denominations -/
+theorem inv_insert (hH : HashInj H) {r : Reg Id} (h : Inv H r) (a : Addr) (s : String) (hs : addrOf s = a) (d0 : Denom) (ds : List Denom) (en : Bool) (ow : Nat)
     (metas' : Map Denom Meta)
     (ha : r.byErc.find a = none) (hds : ∀ d, d ∈ d0 :: ds → r.byDen.find d = none)
     (hm1 : ∀ d, (r.metas.find d).isSome = true → (metas'.find d).isSome = true)
     (hm2 : ∀ d, d ∈ d0 :: ds → (metas'.find d).isSome = true) :
-    Inv H { r with metas := metas', pairs := r.pairs.ins (H a d0) ⟨a, d0 :: ds, en, ow⟩,
-                   byDen := r.byDen.insAll (d0 :: ds) (H a d0), byErc := r.byErc.ins a (H a d0) } := by
-  have fresh : ∀ id p, r.pairs.find id = some p → H a d0 ≠ id := by
+    Inv H { r with metas := metas', pairs := r.pairs.ins (H s d0) ⟨s, d0 :: ds, en, ow⟩,
+                   byDen := r.byDen.insAll (d0 :: ds) (H s d0), byErc := r.byErc.ins a (H s d0) } := by
+  have fresh : ∀ id p, r.pairs.find id = some p → H s d0 ≠ id := by
     intro id p hp e
     obtain ⟨d, ds', _, hid⟩ := getID_some H (h.keyed id p hp)
-    have := (hH a d0 p.addr d (e.trans hid)).1
+    have := (hH s d0 p.addrStr d (e.trans hid)).1
     have f := (h.found id p hp).1
-    rw [← this, ha] at f; cases f
+    have hpa : p.addr = a := by unfold Pair.addr; rw [← this]; exact hs
+    rw [hpa, ha] at f; cases f
   constructor
   · intro id p hp
     simp only [find_ins] at hp
-    by_cases e : H a d0 = id
+    by_cases e : H s d0 = id
     · simp only [e, if_true] at hp
       have := Option.some.inj hp; subst this
       subst e
-      simp only [find_ins, find_insAll, if_true]
+      have hna : Pair.addr ⟨s, d0 :: ds, en, ow⟩ = a := hs
+      simp only [find_ins, find_insAll, hna, ↓reduceIte]
       exact ⟨trivial, fun d hd => by simp [hd]⟩
     · simp only [e, if_false] at hp
       have f := h.found id p hp
@@ -169,7 +172,7 @@ theorem inv_insert (hH : HashInj H) {r : Reg Id} (h : Inv H r) (a : Addr) (d0 : 
     · subst e
       simp only [↓reduceIte] at hid
       have := Option.some.inj hid; subst this
-      exact ⟨⟨a, d0 :: ds, en, ow⟩, by simp, rfl⟩
+      exact ⟨⟨s, d0 :: ds, en, ow⟩, by simp, hs⟩
     · simp only [e, if_false] at hid
       obtain ⟨p, hp, hpa⟩ := h.ercOk a' id hid
       have := fresh id p hp
@@ -179,14 +182,14 @@ theorem inv_insert (hH : HashInj H) {r : Reg Id} (h : Inv H r) (a : Addr) (d0 : 
     by_cases e : d ∈ d0 :: ds
     · simp only [e, if_true] at hid
       have := Option.some.inj hid; subst this
-      exact ⟨⟨a, d0 :: ds, en, ow⟩, by simp, e⟩
+      exact ⟨⟨s, d0 :: ds, en, ow⟩, by simp, e⟩
     · simp only [e, if_false] at hid
       obtain ⟨p, hp, hpd⟩ := h.denOk d id hid
       have := fresh id p hp
       exact ⟨p, by simp [this, hp], hpd⟩
   · intro id p hp
     simp only [find_ins] at hp
-    by_cases e : H a d0 = id
+    by_cases e : H s d0 = id
     · simp only [e, if_true] at hp
       have := Option.some.inj hp; subst this
       simp [getID, e]
@@ -248,10 +251,11 @@ theorem inv_delete {r : Reg Id} (h : Inv H r) (id : Id) (p : Pair) (hp : r.pairs
     · simp [e] at hid
     · simp only [e, if_false] at hid; exact h.backed d id' hid
 
-/-- a stored pair is overwritten by one with the same contract and the same denominations (ToggleRelay) -/
+/-- a stored pair is overwritten by one with the same address string and the same denominations (ToggleRelay) -/
 theorem inv_replace {r : Reg Id} (h : Inv H r) (id : Id) (p p' : Pair) (hp : r.pairs.find id = some p)
-    (ha : p'.addr = p.addr) (hd : p'.denoms = p.denoms) :
+    (hstr : p'.addrStr = p.addrStr) (hd : p'.denoms = p.denoms) :
     Inv H { r with pairs := r.pairs.ins id p' } := by
+  have ha : p'.addr = p.addr := by unfold Pair.addr; rw [hstr]
   have fp := h.found id p hp
   have kp := h.keyed id p hp
   constructor
@@ -279,7 +283,7 @@ theorem inv_replace {r : Reg Id} (h : Inv H r) (id : Id) (p p' : Pair) (hp : r.p
     simp only [find_ins] at hq
     by_cases e : id = id'
     · subst e; simp only [↓reduceIte] at hq; have := Option.some.inj hq; subst this
-      unfold getID at kp ⊢; rw [ha, hd]; exact kp
+      unfold getID at kp ⊢; rw [hstr, hd]; exact kp
     · simp only [e, if_false] at hq; exact h.keyed id' q hq
   · exact h.backed
 
@@ -382,8 +386,8 @@ theorem verifyMetadata_some {metas metas' : Map Denom Meta} {m : Meta} (h : veri
       · cases heq
     · cases h
 
-theorem registerCoin_inv (hH : HashInj H) {r : Reg Id} (h : Inv H r) (vb hs ev dk : Bool) (a : Addr) (m : Meta)
-    (hfresh : dk = true → r.byErc.find a = none) : Inv H (registerCoin H r vb hs ev dk a m).1 := by
+theorem registerCoin_inv (hH : HashInj H) {r : Reg Id} (h : Inv H r) (vb hs ev dk : Bool) (a : Addr) (s : String) (m : Meta)
+    (hfresh : dk = true → r.byErc.find a = none ∧ addrOf s = a) : Inv H (registerCoin H r vb hs ev dk a s m).1 := by
   unfold registerCoin
   repeat' split
   all_goals try exact h
@@ -398,7 +402,7 @@ theorem registerCoin_inv (hH : HashInj H) {r : Reg Id} (h : Inv H r) (vb hs ev d
     | none => rfl
     | some id => have := h.backed _ _ hb; rw [hm3 hdu] at this; cases this
   have hdk' : dk = true := by simpa using hdk
-  exact inv_insert H hH h a m.base [] true 1 metas' (hfresh hdk')
+  exact inv_insert H hH h a s (hfresh hdk').2 m.base [] true 1 metas' (hfresh hdk').1
     (by intro d hd; simp at hd; subst hd; exact hbase) hm1 (by intro d hd; simp at hd; subst hd; exact hm2)
 
 theorem eq_none_of_not_isSome {α : Type} {o : Option α} (h : ¬ o.isSome = true) : o = none := by
@@ -428,14 +432,14 @@ theorem addCoin_inv {r : Reg Id} (h : Inv H r) (vb hs ev : Bool) (c : String) (m
   simp only [hg, ne_eq, not_true_eq_false, ↓reduceIte]
   exact inv_extend H h id p m.base metas' hp hbase hm1 hm2
 
-theorem registerERC20_inv (hH : HashInj H) {r : Reg Id} (h : Inv H r) (vb : Bool) (a : Addr) (q : Option ERC20Data)
-    (san den desc : String) (mv : Bool) : Inv H (registerERC20 H r vb a q san den desc mv).1 := by
+theorem registerERC20_inv (hH : HashInj H) {r : Reg Id} (h : Inv H r) (vb : Bool) (a : Addr) (s : String) (hs : addrOf s = a)
+    (q : Option ERC20Data) (san den desc : String) (mv : Bool) : Inv H (registerERC20 H r vb a s q san den desc mv).1 := by
   unfold registerERC20
   repeat' split
   all_goals try exact h
   all_goals
     rename_i hvb hen ha _ e hmeta hden hdec hmv
-    refine inv_insert H hH h a den [] true 2 _ (eq_none_of_not_isSome ha)
+    refine inv_insert H hH h a s hs den [] true 2 _ (eq_none_of_not_isSome ha)
       (by intro d hd; simp at hd; subst hd; exact eq_none_of_not_isSome hden) ?_ ?_
     · intro d hd
       simp only [find_ins]
@@ -460,8 +464,8 @@ theorem deleteTokenPair_stored {r : Reg Id} (h : Inv H r) {id : Id} {p : Pair} (
   unfold deleteTokenPair
   rw [h.keyed id p hp]
 
-theorem updateERC20_inv (hH : HashInj H) {r : Reg Id} (h : Inv H r) (vb : Bool) (o n : Addr) (q : Option ERC20Data)
-    (d1 d2 : String) : Inv H (updateERC20 H r vb o n q d1 d2).1 := by
+theorem updateERC20_inv (hH : HashInj H) {r : Reg Id} (h : Inv H r) (vb : Bool) (o n : Addr) (ns : String) (hns : addrOf ns = n)
+    (q : Option ERC20Data) (d1 d2 : String) : Inv H (updateERC20 H r vb o n ns q d1 d2).1 := by
   unfold updateERC20
   repeat' split
   all_goals try exact h
@@ -476,7 +480,7 @@ theorem updateERC20_inv (hH : HashInj H) {r : Reg Id} (h : Inv H r) (vb : Bool) 
   have fp := h.found id p hp
   rw [hds] at fp hdI
   simp only [hds]
-  refine inv_insert H hH hdI n d0 tl p.enabled p.owner (r.metas.ins md.base { md with desc := d2 }) ?_ ?_ ?_ ?_
+  refine inv_insert H hH hdI n ns hns d0 tl p.enabled p.owner (r.metas.ins md.base { md with desc := d2 }) ?_ ?_ ?_ ?_
   · simp only [find_del]
     by_cases e : p.addr = n
     · simp [e]
@@ -529,10 +533,15 @@ theorem convert_inv {r : Reg Id} (h : Inv H r) (t d : String) (l : List Addr) : 
 
 /-! ### all action sequences -/
 
-/-- Assumption about the EVM (CREATE never returns an address that is in use): the address a successful
-`DeployERC20Contract` returns is not a registered contract. -/
+/-- Assumptions about the environment of one action:
+* the EVM (CREATE never returns an address that is in use): the address a successful `DeployERC20Contract` returns is
+  not a registered contract;
+* go-ethereum: the string `common.Address.String()` / `.Hex()` that an action stores in the pair parses back
+  (`common.HexToAddress`) to the address it was made from. -/
 def ActionFresh (r : Reg Id) : Action → Prop
-  | .registerCoin _ _ _ dk addr _ => dk = true → r.byErc.find addr = none
+  | .registerCoin _ _ _ dk addr str _ => dk = true → r.byErc.find addr = none ∧ addrOf str = addr
+  | .registerERC20 _ addr str _ _ _ _ _ => addrOf str = addr
+  | .update _ _ new newStr _ _ _ => addrOf newStr = new
   | _ => True
 
 def FreshDeploys : Reg Id → List Action → Prop
@@ -552,11 +561,11 @@ theorem step_inv (hH : HashInj H) {r : Reg Id} (h : Inv H r) (a : Action) (hf : 
     by_cases e : m.base = d
     · simp [e]
     · simp only [e, if_false]; exact this
-  | registerCoin vb hs ev dk addr m => exact registerCoin_inv H hH h vb hs ev dk addr m hf
+  | registerCoin vb hs ev dk addr str m => exact registerCoin_inv H hH h vb hs ev dk addr str m hf
   | addCoin vb hs ev c m => exact addCoin_inv H h vb hs ev c m
-  | registerERC20 vb a q s d ds mv => exact registerERC20_inv H hH h vb a q s d ds mv
+  | registerERC20 vb a str q s d ds mv => exact registerERC20_inv H hH h vb a str hf q s d ds mv
   | toggle vb t => exact toggleRelay_inv H h vb t
-  | update vb o n q d1 d2 => exact updateERC20_inv H hH h vb o n q d1 d2
+  | update vb o n ns q d1 d2 => exact updateERC20_inv H hH h vb o n ns hf q d1 d2
   | convert t d l => exact convert_inv H h t d l
 
 theorem inv_run (hH : HashInj H) (as : List Action) : ∀ {r : Reg Id}, Inv H r → FreshDeploys H r as → Inv H (run H r as) := by
@@ -606,8 +615,8 @@ theorem step_keeps_denom {r : Reg Id} (a : Action) (d : Denom) (id : Id) (hd : r
   cases a with
   | setParams b => exact ⟨id, hd⟩
   | bankMeta m => exact ⟨id, hd⟩
-  | registerCoin vb hs ev dk addr m =>
-    show ∃ id', (registerCoin H r vb hs ev dk addr m).1.byDen.find d = some id'
+  | registerCoin vb hs ev dk addr str m =>
+    show ∃ id', (registerCoin H r vb hs ev dk addr str m).1.byDen.find d = some id'
     unfold registerCoin
     repeat' (first | split | (dsimp only; split))
     all_goals try exact ⟨id, hd⟩
@@ -626,8 +635,8 @@ theorem step_keeps_denom {r : Reg Id} (a : Action) (d : Denom) (id : Id) (hd : r
     by_cases e : m.base = d
     · simp [e]
     · simp only [e, if_false]; exact ⟨id, hd⟩
-  | registerERC20 vb a q s dn ds mv =>
-    show ∃ id', (registerERC20 H r vb a q s dn ds mv).1.byDen.find d = some id'
+  | registerERC20 vb a str q s dn ds mv =>
+    show ∃ id', (registerERC20 H r vb a str q s dn ds mv).1.byDen.find d = some id'
     unfold registerERC20
     repeat' (first | split | (dsimp only; split))
     all_goals try exact ⟨id, hd⟩
@@ -642,8 +651,8 @@ theorem step_keeps_denom {r : Reg Id} (a : Action) (d : Denom) (id : Id) (hd : r
     unfold toggleRelay
     repeat' (first | split | (dsimp only; split))
     all_goals exact ⟨id, hd⟩
-  | update vb o n q d1 d2 =>
-    show ∃ id', (updateERC20 H r vb o n q d1 d2).1.byDen.find d = some id'
+  | update vb o n ns q d1 d2 =>
+    show ∃ id', (updateERC20 H r vb o n ns q d1 d2).1.byDen.find d = some id'
     unfold updateERC20
     repeat' (first | split | (dsimp only; split))
     all_goals try exact ⟨id, hd⟩
@@ -697,8 +706,8 @@ theorem step_never_panics {r : Reg Id} (h : Inv H r) (a : Action) : (step H r a)
   cases a with
   | setParams b => intro hc; cases hc
   | bankMeta m => intro hc; cases hc
-  | registerCoin vb hs ev dk addr m =>
-    show (registerCoin H r vb hs ev dk addr m).2 ≠ Status.panic
+  | registerCoin vb hs ev dk addr str m =>
+    show (registerCoin H r vb hs ev dk addr str m).2 ≠ Status.panic
     unfold registerCoin
     repeat' (first | split | (dsimp only; split))
     all_goals try (intro hc; cases hc; done)
@@ -713,8 +722,8 @@ theorem step_never_panics {r : Reg Id} (h : Inv H r) (a : Action) : (step H r a)
     rename_i p hp _ hg
     obtain ⟨d, ds, hds, _⟩ := getID_some H (h.keyed _ p hp)
     simp [getID, hds] at hg
-  | registerERC20 vb a q s dn ds mv =>
-    show (registerERC20 H r vb a q s dn ds mv).2 ≠ Status.panic
+  | registerERC20 vb a str q s dn ds mv =>
+    show (registerERC20 H r vb a str q s dn ds mv).2 ≠ Status.panic
     unfold registerERC20
     repeat' (first | split | (dsimp only; split))
     all_goals (intro hc; cases hc; done)
@@ -727,8 +736,8 @@ theorem step_never_panics {r : Reg Id} (h : Inv H r) (a : Action) : (step H r a)
     have kp := h.keyed _ p hp
     unfold getID at kp hg
     rw [hg] at kp; cases kp
-  | update vb o n q d1 d2 =>
-    show (updateERC20 H r vb o n q d1 d2).2 ≠ Status.panic
+  | update vb o n ns q d1 d2 =>
+    show (updateERC20 H r vb o n ns q d1 d2).2 ≠ Status.panic
     unfold updateERC20
     repeat' (first | split | (dsimp only; split))
     all_goals try (intro hc; cases hc; done)
@@ -751,14 +760,20 @@ theorem step_never_panics {r : Reg Id} (h : Inv H r) (a : Action) : (step H r a)
 
 /-! ### genesis import -/
 
-/-- what the export of a consistent registry (plus the bank genesis) satisfies with respect to the registry it is
-imported into: every pair has a denomination, contracts and denominations are new, pairwise disjoint, and have bank
-metadata. `GenesisState.Validate` checks much less (only duplicates of the address and of `Denoms[0]`). -/
+/-- What a genesis file must satisfy with respect to the registry it is imported into (the export of a consistent
+registry, plus the bank genesis, does): every pair has a denomination; contracts — compared as 20-byte ADDRESSES
+(`Pair.addr = HexToAddress(ERC20Address)`), whatever their spelling — and denominations are new and pairwise disjoint;
+every denomination has bank metadata. NOTHING is required of the spelling of an address string (lower case, upper case,
+with or without `0x`): `InitGenesis` computes the id from the string as written and stores the pair with the same string.
+`GenesisState.Validate` checks much less (duplicates of the address STRING and of `Denoms[0]` only). -/
 def GenesisOk (r : Reg Id) (ps : List Pair) : Prop :=
   (∀ p, p ∈ ps → p.denoms ≠ [] ∧ r.byErc.find p.addr = none ∧
       ∀ d, d ∈ p.denoms → r.byDen.find d = none ∧ (r.metas.find d).isSome = true) ∧
   ps.Pairwise (fun p q => p.addr ≠ q.addr ∧ ∀ d, d ∈ p.denoms → d ∉ q.denoms)
 
+/-- **Genesis import, every spelling.** `InitGenesis` of a `GenesisOk` file does not panic and keeps the invariant —
+in particular a pair written with a non-checksummed address is found by its contract address and by every denomination,
+and (by `consistent_run` / `convertible_back` from the resulting state) stays so under all later actions. -/
 theorem initGenesis_inv (hH : HashInj H) (ps : List Pair) :
     ∀ {r : Reg Id}, Inv H r → GenesisOk r ps → ∃ r', initGenesis H r ps = some r' ∧ Inv H r' := by
   induction ps with
@@ -767,23 +782,23 @@ theorem initGenesis_inv (hH : HashInj H) (ps : List Pair) :
     intro r h hg
     obtain ⟨hall, hpw⟩ := hg
     obtain ⟨hne, hfa, hfd⟩ := hall p (List.mem_cons_self ..)
-    obtain ⟨a, dl, en, ow⟩ := p
+    obtain ⟨s, dl, en, ow⟩ := p
     cases dl with
     | nil => exact absurd rfl hne
     | cons d0 ds =>
       have hpw' := List.pairwise_cons.mp hpw
-      have h1 := inv_insert H hH h a d0 ds en ow r.metas hfa (fun d hd => (hfd d hd).1) (fun _ hd => hd)
+      have h1 := inv_insert H hH h (addrOf s) s rfl d0 ds en ow r.metas hfa (fun d hd => (hfd d hd).1) (fun _ hd => hd)
         (fun d hd => (hfd d hd).2)
       have hg1 : GenesisOk
-          { r with metas := r.metas, pairs := r.pairs.ins (H a d0) ⟨a, d0 :: ds, en, ow⟩,
-                   byDen := r.byDen.insAll (d0 :: ds) (H a d0), byErc := r.byErc.ins a (H a d0) } ps := by
+          { r with metas := r.metas, pairs := r.pairs.ins (H s d0) ⟨s, d0 :: ds, en, ow⟩,
+                   byDen := r.byDen.insAll (d0 :: ds) (H s d0), byErc := r.byErc.ins (addrOf s) (H s d0) } ps := by
         refine ⟨?_, hpw'.2⟩
         intro q hq
         obtain ⟨qne, qfa, qfd⟩ := hall q (List.mem_cons_of_mem _ hq)
         have hdis := hpw'.1 q hq
         refine ⟨qne, ?_, ?_⟩
         · simp only [find_ins]
-          have : ¬ a = q.addr := hdis.1
+          have : ¬ addrOf s = q.addr := hdis.1
           simp only [this, if_false]; exact qfa
         · intro d hd
           simp only [find_insAll]
@@ -795,6 +810,103 @@ theorem initGenesis_inv (hH : HashInj H) (ps : List Pair) :
       simp only [initGenesis, getID]
       exact hr'
 
+/-- the same from the registry a chain starts with (only bank metadata) -/
+theorem initGenesis_consistent (hH : HashInj H) (ps : List Pair) (metas : Map Denom Meta)
+    (hg : GenesisOk ({ metas := metas } : Reg Id) ps) :
+    ∃ r', initGenesis H ({ metas := metas } : Reg Id) ps = some r' ∧ Consistent r' := by
+  have h0 : Inv H ({ metas := metas } : Reg Id) := by
+    constructor <;> intro _ _ h <;> simp [Map.find] at h
+  obtain ⟨r', hr', hI⟩ := initGenesis_inv H hH ps h0 hg
+  exact ⟨r', hr', hI.consistent⟩
+
+/-! ### the repaired `GenesisState.Validate` implies what the import needs -/
+
+omit [DecidableEq Id] in
+theorem addDenoms_some {seen seen' : List Denom} {ds : List Denom} (h : addDenoms seen ds = some seen') :
+    (∀ d, d ∈ ds → d ∉ seen) ∧ ds.Nodup ∧ (∀ x, x ∈ seen' ↔ x ∈ seen ∨ x ∈ ds) := by
+  induction ds generalizing seen with
+  | nil =>
+    have := Option.some.inj h; subst this
+    exact ⟨fun _ hd => (nomatch hd), List.nodup_nil, fun x => by simp⟩
+  | cons d ds ih =>
+    unfold addDenoms at h
+    split at h
+    · cases h
+    · next hc =>
+      have hd : d ∉ seen := by simpa using hc
+      obtain ⟨h1, h2, h3⟩ := ih h
+      refine ⟨?_, ?_, ?_⟩
+      · intro x hx
+        rcases List.mem_cons.mp hx with rfl | hx
+        · exact hd
+        · intro hs; exact h1 x hx (List.mem_cons_of_mem _ hs)
+      · refine List.nodup_cons.mpr ⟨?_, h2⟩
+        intro hin; exact h1 d hin (List.mem_cons_self ..)
+      · intro x
+        rw [h3 x]
+        simp only [List.mem_cons]
+        constructor
+        · rintro ((rfl | hx) | hx)
+          · exact Or.inr (Or.inl rfl)
+          · exact Or.inl hx
+          · exact Or.inr (Or.inr hx)
+        · rintro (hx | rfl | hx)
+          · exact Or.inl (Or.inr hx)
+          · exact Or.inl (Or.inl rfl)
+          · exact Or.inr hx
+
+omit [DecidableEq Id] in
+theorem validateStrictAux_ok (ps : List Pair) : ∀ (seenE : List Addr) (seenD : List Denom),
+    validateGenesisStrictAux seenE seenD ps = true →
+    (∀ p, p ∈ ps → p.denoms ≠ [] ∧ p.addr ∉ seenE ∧ ∀ d, d ∈ p.denoms → d ∉ seenD) ∧
+    ps.Pairwise (fun p q => p.addr ≠ q.addr ∧ ∀ d, d ∈ p.denoms → d ∉ q.denoms) := by
+  induction ps with
+  | nil => intro _ _ _; exact ⟨fun _ hp => (nomatch hp), List.Pairwise.nil⟩
+  | cons p ps ih =>
+    intro seenE seenD h
+    unfold validateGenesisStrictAux at h
+    split at h
+    · cases h
+    · next hne =>
+      split at h
+      · cases h
+      · split at h
+        · cases h
+        · next hE =>
+          split at h
+          · cases h
+          · next seenD' hadd =>
+            obtain ⟨a1, _, a3⟩ := addDenoms_some hadd
+            obtain ⟨i1, i2⟩ := ih _ _ h
+            have hpE : p.addr ∉ seenE := by simpa using hE
+            have hpne : p.denoms ≠ [] := by intro e; simp [e] at hne
+            refine ⟨?_, List.pairwise_cons.mpr ⟨?_, i2⟩⟩
+            · intro q hq
+              rcases List.mem_cons.mp hq with rfl | hq
+              · exact ⟨hpne, hpE, a1⟩
+              · obtain ⟨q1, q2, q3⟩ := i1 q hq
+                refine ⟨q1, fun hin => q2 (List.mem_cons_of_mem _ hin), ?_⟩
+                intro d hd hs
+                exact q3 d hd ((a3 d).mpr (Or.inl hs))
+            · intro q hq
+              obtain ⟨_, q2, q3⟩ := i1 q hq
+              refine ⟨fun e => q2 (by rw [← e]; exact List.mem_cons_self ..), ?_⟩
+              intro d hd hdq
+              exact q3 d hdq ((a3 d).mpr (Or.inr hd))
+
+/-- A genesis file that the REPAIRED `Validate` accepts, whose denominations have bank metadata, is imported into a
+consistent registry — whatever the spelling of its addresses. (For the `Validate` of the unchanged tree this is false:
+`Witness.validate_accepts_two_spellings`, `Witness.badGenesis`.) -/
+theorem validateStrict_import_consistent (hH : HashInj H) (ps : List Pair) (metas : Map Denom Meta)
+    (hv : validateGenesisStrict ps = true)
+    (hm : ∀ p, p ∈ ps → ∀ d, d ∈ p.denoms → (metas.find d).isSome = true) :
+    ∃ r', initGenesis H ({ metas := metas } : Reg Id) ps = some r' ∧ Consistent r' := by
+  obtain ⟨h1, h2⟩ := validateStrictAux_ok ps [] [] hv
+  refine initGenesis_consistent H hH ps metas ⟨?_, h2⟩
+  intro p hp
+  obtain ⟨q1, _, _⟩ := h1 p hp
+  exact ⟨q1, rfl, fun d hd => ⟨rfl, hm p hp d hd⟩⟩
+
 end
 
 /-! ### the unrepaired UpdateTokenPairERC20 violates the property (finding F6), concrete witnesses;
@@ -802,62 +914,75 @@ end
 
 namespace Witness
 
-/-- ids modelled by their preimage: trivially collision free -/
-def Hp (a : Addr) (d : Denom) : Addr × Denom := (a, d)
+/-- ids modelled by their preimage (address string as stored, denomination): trivially collision free -/
+def Hp (a : String) (d : Denom) : String × Denom := (a, d)
 
 theorem hp_inj : HashInj Hp := by
   intro a d a' d' h
   exact ⟨congrArg Prod.fst h, congrArg Prod.snd h⟩
 
+abbrev R := Reg (String × Denom)
+
 def e1 : Addr := "1111111111111111111111111111111111111111"
 def e2 : Addr := "2222222222222222222222222222222222222222"
 def e3 : Addr := "3333333333333333333333333333333333333333"
+/-- `Address.String()` of the above (no letters: the EIP-55 spelling is the plain one) -/
+def s1 : String := "0x1111111111111111111111111111111111111111"
+def s2 : String := "0x2222222222222222222222222222222222222222"
+def s3 : String := "0x3333333333333333333333333333333333333333"
 /-- the string "0x1111111111111111111111111111111111111111" in the hex form of the line protocol -/
 def e1Str : String := "307831313131313131313131313131313131313131313131313131313131313131313131313131313131"
 def usdx : ERC20Data := ⟨"usdx", "USDX", 6⟩
 def ccoin : Meta := { base := "ccoin", name := "ccoin", symbol := "CCOIN", display := "ccoin", desc := "c", units := [("ccoin", 0)] }
 
+example : addrOf s1 = e1 ∧ addrOf s2 = e2 ∧ addrOf s3 = e3 := by decide
+
 /-- RegisterERC20(e1); AddCoin(ccoin → e1); UpdateTokenPairERC20(e1 → e3) -/
 def multiDenom : List Action :=
-  [ .registerERC20 true e1 (some usdx) "usdx" "agg/e1" "desc/e1" true,
+  [ .registerERC20 true e1 s1 (some usdx) "usdx" "agg/e1" "desc/e1" true,
     .addCoin true true false e1Str ccoin,
-    .update true e1 e3 (some usdx) "desc/e1" "desc/e3" ]
+    .update true e1 e3 s3 (some usdx) "desc/e1" "desc/e3" ]
 
 /-- RegisterERC20(e1); RegisterERC20(e2); UpdateTokenPairERC20(e1 → e2) -/
 def registeredTarget : List Action :=
-  [ .registerERC20 true e1 (some usdx) "usdx" "agg/e1" "desc/e1" true,
-    .registerERC20 true e2 (some usdx) "usdx" "agg/e2" "desc/e2" true,
-    .update true e1 e2 (some usdx) "desc/e1" "desc/e2" ]
+  [ .registerERC20 true e1 s1 (some usdx) "usdx" "agg/e1" "desc/e1" true,
+    .registerERC20 true e2 s2 (some usdx) "usdx" "agg/e2" "desc/e2" true,
+    .update true e1 e2 s2 (some usdx) "desc/e1" "desc/e2" ]
 
-theorem fresh_multiDenom : FreshDeploys Hp ({} : Reg (Addr × Denom)) multiDenom := by
-  simp [FreshDeploys, ActionFresh, multiDenom]
+theorem fresh_multiDenom : FreshDeploys Hp ({} : R) multiDenom := by
+  refine ⟨?_, True.intro, ?_, True.intro⟩
+  · show addrOf s1 = e1; decide
+  · show addrOf s3 = e3; decide
 
-theorem fresh_registeredTarget : FreshDeploys Hp ({} : Reg (Addr × Denom)) registeredTarget := by
-  simp [FreshDeploys, ActionFresh, registeredTarget]
+theorem fresh_registeredTarget : FreshDeploys Hp ({} : R) registeredTarget := by
+  refine ⟨?_, ?_, ?_, True.intro⟩
+  · show addrOf s1 = e1; decide
+  · show addrOf s2 = e2; decide
+  · show addrOf s2 = e2; decide
 
-/-- F6 (a): the code as it is drops the index entries of `Denoms[1..]`: the updated pair lists `ccoin`, the denomination
+/-- F6 (a): the code as it was dropped the index entries of `Denoms[1..]`: the updated pair lists `ccoin`, the denomination
 index does not know `ccoin` any more. -/
-theorem updateOrig_drops_denominations : ¬ Consistent (runOrig Hp ({} : Reg (Addr × Denom)) multiDenom) := by
+theorem updateOrig_drops_denominations : ¬ Consistent (runOrig Hp ({} : R) multiDenom) := by
   intro hc
-  have h := (hc.found (e3, "agg/e1") ⟨e3, ["agg/e1", "ccoin"], true, 2⟩ (by decide)).2 "ccoin" (by decide)
+  have h := (hc.found (s3, "agg/e1") ⟨s3, ["agg/e1", "ccoin"], true, 2⟩ (by decide)).2 "ccoin" (by decide)
   revert h
   decide
 
 /-- … and the coin that was convertible before the update is not convertible afterwards (no pair was deleted) -/
 theorem updateOrig_loses_convertibility :
-    Convertible (runOrig Hp ({} : Reg (Addr × Denom)) (multiDenom.take 2)) "ccoin" ∧
-    ¬ Convertible (runOrig Hp ({} : Reg (Addr × Denom)) multiDenom) "ccoin" := by
+    Convertible (runOrig Hp ({} : R) (multiDenom.take 2)) "ccoin" ∧
+    ¬ Convertible (runOrig Hp ({} : R) multiDenom) "ccoin" := by
   constructor
-  · exact ⟨(e1, "agg/e1"), ⟨e1, ["agg/e1", "ccoin"], true, 2⟩, by decide, by decide, by decide, by decide⟩
+  · exact ⟨(s1, "agg/e1"), ⟨s1, ["agg/e1", "ccoin"], true, 2⟩, by decide, by decide, by decide, by decide⟩
   · rintro ⟨id, p, h, _⟩
-    have hn : (runOrig Hp ({} : Reg (Addr × Denom)) multiDenom).byDen.find "ccoin" = none := by decide
+    have hn : (runOrig Hp ({} : R) multiDenom).byDen.find "ccoin" = none := by decide
     rw [hn] at h; cases h
 
-/-- F6 (b): the code as it is accepts a new address that already belongs to another pair: contract `e2` ends up in two
+/-- F6 (b): the code as it was accepted a new address that already belongs to another pair: contract `e2` ends up in two
 pairs. -/
-theorem updateOrig_accepts_registered_address : ¬ Consistent (runOrig Hp ({} : Reg (Addr × Denom)) registeredTarget) := by
+theorem updateOrig_accepts_registered_address : ¬ Consistent (runOrig Hp ({} : R) registeredTarget) := by
   intro hc
-  have h := hc.disjoint (e2, "agg/e1") (e2, "agg/e2") ⟨e2, ["agg/e1"], true, 2⟩ ⟨e2, ["agg/e2"], true, 2⟩
+  have h := hc.disjoint (s2, "agg/e1") (s2, "agg/e2") ⟨s2, ["agg/e1"], true, 2⟩ ⟨s2, ["agg/e2"], true, 2⟩
     (by decide) (by decide) (Or.inl rfl)
   revert h
   decide
@@ -865,42 +990,120 @@ theorem updateOrig_accepts_registered_address : ¬ Consistent (runOrig Hp ({} : 
 /-- the same histories with the repaired function: the update of the multi-denomination pair succeeds and `ccoin` is
 still found; the update onto a registered address is rejected (state unchanged). Consistency of both is an instance
 of `consistent_run`. -/
-example : Consistent (run Hp ({} : Reg (Addr × Denom)) multiDenom) :=
+example : Consistent (run Hp ({} : R) multiDenom) :=
   consistent_from_genesis Hp hp_inj multiDenom fresh_multiDenom
 
-example : (run Hp ({} : Reg (Addr × Denom)) multiDenom).byDen.find "ccoin" = some (e3, "agg/e1") := by decide
-example : (run Hp ({} : Reg (Addr × Denom)) multiDenom).byErc.find e3 = some (e3, "agg/e1") := by decide
-example : (run Hp ({} : Reg (Addr × Denom)) multiDenom).byErc.find e1 = none := by decide
+example : (run Hp ({} : R) multiDenom).byDen.find "ccoin" = some (s3, "agg/e1") := by decide
+example : (run Hp ({} : R) multiDenom).byErc.find e3 = some (s3, "agg/e1") := by decide
+example : (run Hp ({} : R) multiDenom).byErc.find e1 = none := by decide
 
-example : Convertible (run Hp ({} : Reg (Addr × Denom)) multiDenom) "ccoin" :=
+example : Convertible (run Hp ({} : R) multiDenom) "ccoin" :=
   convertible_back Hp hp_inj "ccoin" [multiDenom.getLast (by decide)]
-    (inv_run Hp hp_inj (multiDenom.take 2) (inv_empty Hp) (by simp [FreshDeploys, ActionFresh, multiDenom]))
-    (by simp [FreshDeploys, ActionFresh, multiDenom])
-    ⟨(e1, "agg/e1"), ⟨e1, ["agg/e1", "ccoin"], true, 2⟩, by decide, by decide, by decide, by decide⟩
+    (inv_run Hp hp_inj (multiDenom.take 2) (inv_empty Hp) ⟨(by show addrOf s1 = e1; decide), True.intro, True.intro⟩)
+    ⟨(by show addrOf s3 = e3; decide), True.intro⟩
+    ⟨(s1, "agg/e1"), ⟨s1, ["agg/e1", "ccoin"], true, 2⟩, by decide, by decide, by decide, by decide⟩
     (by simp [NoDelete, Deletes, multiDenom])
 
-example : (step Hp (run Hp ({} : Reg (Addr × Denom)) (registeredTarget.take 2)) (registeredTarget.getLast (by decide))).2 = Status.err := by
+example : (step Hp (run Hp ({} : R) (registeredTarget.take 2)) (registeredTarget.getLast (by decide))).2 = Status.err := by
   decide
 
 /-- the masked hole: RegisterCoin / AddCoin test `IsDenomRegistered(Name)`, not `Base`; a coin whose BASE is registered
 (under another name) is still rejected, because `verifyMetadata` fails on every denomination that has metadata -/
-example : (step Hp (run Hp ({} : Reg (Addr × Denom)) (multiDenom.take 2))
-    (.registerCoin true true false true e2 { ccoin with name := "other" })).2 = Status.err := by decide
+example : (step Hp (run Hp ({} : R) (multiDenom.take 2))
+    (.registerCoin true true false true e2 s2 { ccoin with name := "other" })).2 = Status.err := by decide
+
+/-! #### genesis files: spellings of an address -/
+
+/-- one contract, four spellings that `IsHexAddress` accepts -/
+def ea : Addr := "abcdefabcdefabcdefabcdefabcdefabcdefabcd"
+def eaLower : String := "0xabcdefabcdefabcdefabcdefabcdefabcdefabcd"
+def eaUpper : String := "0XABCDEFABCDEFABCDEFABCDEFABCDEFABCDEFABCD"
+def eaMixed : String := "0xabcdefABCDEFabcdefABCDEFabcdefABCDEFabcd"
+def eaBare : String := "ABCDEFabcdefabcdefabcdefabcdefabcdefabcd"
+/-- the token string "0xABCDEF…" (upper-case digits) in the hex form of the line protocol: what a proposal may use -/
+def eaTokenUpper : String :=
+  "307841424344454641424344454641424344454641424344454641424344454641424344454641424344"
+
+example : [eaLower, eaUpper, eaMixed, eaBare].map addrOf = [ea, ea, ea, ea] := by decide
+example : [eaLower, eaUpper, eaMixed, eaBare].all isHexAddressStr = true := by decide
+example : hexAddr? eaTokenUpper = some ea := by decide
+
+def metasAB : Map Denom Meta := [("acoin", ccoin), ("bcoin", ccoin)]
+
+/-- a two-denomination pair written with a lower-case address: the file is `GenesisOk`, so `initGenesis_inv` applies;
+concretely the pair is stored under hash(string as written), found by the 20-byte address and by both denominations,
+a proposal that spells the address differently toggles it, and an address update re-spells it. -/
+def lowerGenesis : List Pair := [⟨eaLower, ["acoin", "bcoin"], true, 1⟩]
+
+example : validateGenesis lowerGenesis = some true := by decide
+example : GenesisOk ({ metas := metasAB } : R) lowerGenesis := by unfold GenesisOk; decide
+
+def lowerImported : R := ((initGenesis Hp ({ metas := metasAB } : R) lowerGenesis).getD {})
+
+example : lowerImported.pairs.find (eaLower, "acoin") = some ⟨eaLower, ["acoin", "bcoin"], true, 1⟩ ∧
+    lowerImported.byErc.find ea = some (eaLower, "acoin") ∧ lowerImported.byDen.find "bcoin" = some (eaLower, "acoin") := by
+  decide
+
+example : (step Hp lowerImported (.toggle true eaTokenUpper)).2 = Status.ok ∧
+    (step Hp lowerImported (.toggle true eaTokenUpper)).1.pairs.find (eaLower, "acoin")
+      = some ⟨eaLower, ["acoin", "bcoin"], false, 1⟩ := by decide
+
+/-- The class of change this part of the check is designed to catch: an import that stores the pair under another
+spelling than the one the id was computed from ("normalise the address before SetTokenPair"). `canon` = the
+re-spelling. The index entries then point to an id under which nothing is stored. -/
+def initGenesisRespelled (canon : String → String) (r : R) : List Pair → Option R
+  | [] => some r
+  | p :: ps =>
+    match getID Hp p with
+    | none => none
+    | some id =>
+      let p' : Pair := { p with addrStr := canon p.addrStr }
+      match getID Hp p' with
+      | none => none
+      | some id' =>
+        initGenesisRespelled canon
+          { r with pairs := r.pairs.ins id' p', byDen := r.byDen.insAll p.denoms id, byErc := r.byErc.ins p.addr id } ps
+
+theorem respelled_import_inconsistent :
+    ∃ r, initGenesisRespelled (fun _ => eaMixed) ({ metas := metasAB } : R) lowerGenesis = some r ∧ ¬ Consistent r := by
+  refine ⟨_, rfl, ?_⟩
+  intro hc
+  have h := (hc.found (eaMixed, "acoin") ⟨eaMixed, ["acoin", "bcoin"], true, 1⟩ (by decide)).1
+  revert h
+  decide
+
+/-- `GenesisState.Validate` compares address STRINGS: the same contract in two spellings passes, and the import puts the
+contract into two pairs (the first is no longer found by its address). The file is not `GenesisOk` (addresses are
+compared as 20 bytes there). -/
+def twoSpellings : List Pair := [⟨eaLower, ["acoin"], true, 1⟩, ⟨eaUpper, ["bcoin"], true, 1⟩]
+
+example : validateGenesis twoSpellings = some true := by decide
+example : validateGenesisStrict twoSpellings = false := by decide
+example : validateGenesisStrict lowerGenesis = true := by decide
+
+theorem validate_accepts_two_spellings :
+    validateGenesis twoSpellings = some true ∧
+    ∃ r, initGenesis Hp ({ metas := metasAB } : R) twoSpellings = some r ∧ ¬ Consistent r := by
+  refine ⟨by decide, _, rfl, ?_⟩
+  intro hc
+  have h := (hc.found (eaLower, "acoin") ⟨eaLower, ["acoin"], true, 1⟩ (by decide)).1
+  revert h
+  decide
 
 /-- `GenesisState.Validate` accepts a file in which a denomination occurs twice (not in first position); importing it
 gives an inconsistent registry: pair (e1) lists `shared`, the index sends `shared` to pair (e2). (Not a governance
 action; genesis files are C13's subject. Recorded here because `consistent_run` needs a consistent start.) -/
-def badGenesis : List Pair := [⟨e1, ["acoin", "shared"], true, 1⟩, ⟨e2, ["bcoin", "shared"], true, 1⟩]
+def badGenesis : List Pair := [⟨s1, ["acoin", "shared"], true, 1⟩, ⟨s2, ["bcoin", "shared"], true, 1⟩]
 
 example : validateGenesis badGenesis = some true := by decide
+example : validateGenesisStrict badGenesis = false := by decide
 
-example : ∃ r, initGenesis Hp ({} : Reg (Addr × Denom)) badGenesis = some r ∧
-    r.pairs.find (e1, "acoin") = some ⟨e1, ["acoin", "shared"], true, 1⟩ ∧ r.byDen.find "shared" = some (e2, "bcoin") :=
+example : ∃ r, initGenesis Hp ({} : R) badGenesis = some r ∧
+    r.pairs.find (s1, "acoin") = some ⟨s1, ["acoin", "shared"], true, 1⟩ ∧ r.byDen.find "shared" = some (s2, "bcoin") :=
   ⟨_, rfl, by decide, by decide⟩
 
 /-- a disjoint genesis with metadata is imported into a consistent registry (non-vacuity of `initGenesis_inv`) -/
-example : GenesisOk ({ metas := [("acoin", ccoin), ("bcoin", ccoin)] } : Reg (Addr × Denom))
-    [⟨e1, ["acoin"], true, 1⟩, ⟨e2, ["bcoin"], false, 2⟩] := by
+example : GenesisOk ({ metas := metasAB } : R) [⟨s1, ["acoin"], true, 1⟩, ⟨eaBare, ["bcoin"], false, 2⟩] := by
   unfold GenesisOk
   decide
 
